@@ -148,18 +148,24 @@ def run(ctx):
     # translation validation: convB on the real (schema, dump) pairs
     lines = []
     for k, c in enumerate(live):
-        lines.append("ir c%d %s" % (k, json.dumps({"dump": c.dump, "settings": {}, "doc": c.doc}))); lines.append("allconv c%d" % k)
+        lines.append("ir c%d %s" % (k, json.dumps({"dump": c.dump, "settings": {}, "doc": c.doc}))); lines.append("allconv c%d" % k); lines.append("allenc c%d" % k)
     conv = {}
     tv = {"conv_true": 0, "conv_false": 0, "schema_unsupported": 0}
+    conv_open = []
     if st["driver_ok"] and live:
         out = m2.run_bin(vlib.drv("ir"), lines)
         for k, c in enumerate(live):
-            r = json.loads(out[2 * k + 1]) if out[2 * k] == "ok" else {"defs": {}, "unsupported": []}
+            r = json.loads(out[3 * k + 1]) if out[3 * k] == "ok" else {"defs": {}, "unsupported": []}
+            re_ = json.loads(out[3 * k + 2]) if out[3 * k] == "ok" else {"defs": {}}
+            for key, v in r["defs"].items():
+                if not v["conv"] and key not in r["unsupported"] and re_["defs"].get(key, {}).get("frag") and v.get("rid") is not None:
+                    conv_open.append((c.tag, key))
             conv[id(c)] = r
             allc = all(v["conv"] for v in r["defs"].values()) and not r["unsupported"]
             c.allconv = allc
             for v in r["defs"].values(): tv["conv_true" if v["conv"] else "conv_false"] += 1
             tv["schema_unsupported"] += len(r["unsupported"])
+    ctx.log("convB false inside the fragment: %d %s" % (len(conv_open), conv_open[:12]))
     # instances
     reqs = []; meta = []; oreq = []; skipped_typeless = 0; docids = {}
     ninst = 12 if ctx.tier == "thorough" else 6
